@@ -297,12 +297,15 @@ class _InMemoryBackend(backend.Backend):
     """Constructor."""
     super().__init__()
 
-    if name is None or name not in _in_memory_results:
-      study = _InMemoryResult(name, num_examples)
-      if name is not None:
-        _in_memory_results[name] = study
-    else:
-      study = _in_memory_results[name]
+    # Workers of the same named sampling construct their backends concurrently:
+    # get-or-create of the shared study must be atomic.
+    with _in_memory_results_lock:
+      if name is None or name not in _in_memory_results:
+        study = _InMemoryResult(name, num_examples)
+        if name is not None:
+          _in_memory_results[name] = study
+      else:
+        study = _in_memory_results[name]
 
     if group is None:
       group = str(threading.get_ident())
@@ -314,9 +317,11 @@ class _InMemoryBackend(backend.Backend):
 
     # NOTE(daiyip): algorithm can continue if it's already set up with the same
     # DNASpec, or we will setup the algorithm with input DNASpec.
-    if algorithm.dna_spec is None:
-      algorithm.setup(dna_spec)
-    elif symbolic.ne(algorithm.dna_spec, dna_spec):
+    with _in_memory_results_lock:
+      # ... and so must the one-time setup of the shared algorithm.
+      if algorithm.dna_spec is None:
+        algorithm.setup(dna_spec)
+    if symbolic.ne(algorithm.dna_spec, dna_spec):
       raise ValueError(
           f'{algorithm!r} has been set up with a different DNASpec. '
           f'Existing: {algorithm.dna_spec!r}, New: {dna_spec!r}.')
@@ -389,3 +394,4 @@ class _InMemoryBackend(backend.Backend):
 
 # Global dictionary for locally sampled in-memory results by name.
 _in_memory_results: Dict[str, _InMemoryResult] = {}
+_in_memory_results_lock = threading.Lock()
